@@ -26,7 +26,7 @@ Extras == ArgNames \ Signs              \* fractional, huge, signed-zero and non
 
 VARIABLES seed0, seed, hist, nums, pos, ex, cls
 vars == <<seed0, seed, hist, nums, pos, ex, cls>>
-RngView == <<seed0, seed, Len(hist), ex, cls>>
+RngView == <<seed0, seed, Len(hist), ex, cls, pos>>
 
 (***************************************************************************)
 (* An independent definition of the k-th state: 33-bit numbers as three    *)
